@@ -14,6 +14,7 @@ typedef struct {
         uint64_t digest;   /* chain over all returns */
         long nret, njobs;
         int errfield_bad;  /* times the per-manager error field was not what the call produced */
+        int init_bad;      /* the manager could not be allocated / initialised as the variant asked for */
         int idx;
 } tctx;
 
@@ -51,6 +52,16 @@ worker(void *arg)
 {
         tctx *t = arg;
         IMB_MGR *m = hx_mgr_new(t->v);
+        t->init_bad = !m || m->imb_errno != 0 || !m->get_next_job || (int) m->used_arch_type != t->v->exp_type;
+        if (t->init_bad) {
+                /* allocation / initialisation of this thread's manager gave another result than alone */
+                t->digest = 0xbadULL;
+                t->nret = t->njobs = 0;
+                t->errfield_bad = 0;
+                if (use_barrier)
+                        pthread_barrier_wait(&bar);
+                return NULL;
+        }
         hx_job *by_slot[IMB_MAX_JOBS];
         memset(by_slot, 0, sizeof(by_slot));
         hx_rng g, r;
@@ -175,6 +186,19 @@ hammer_worker(void *arg)
 {
         hctx *t = arg;
         IMB_MGR *m = hx_mgr_new(t->v);
+        if (!m || m->imb_errno != 0 || !m->get_next_job || (int) m->used_arch_type != t->v->exp_type) {
+                /* the manager of this thread did not come up as it does alone: counted as a concurrent mismatch */
+                t->built = 0;
+                t->mism_solo = 0;
+                t->mism_conc = 1;
+                t->runs = 0;
+                t->first_bad_job = -2;
+                t->first_bad_round = -2;
+                pthread_barrier_wait(&bar);
+                for (int turn = 0; turn < t->nthreads; turn++)
+                        pthread_barrier_wait(&bar);
+                return NULL;
+        }
         hx_job js[HJ];
         uint64_t dig[HJ];
         hx_rng r;
@@ -325,6 +349,8 @@ drv_threads(int argc, char **argv)
                         tr_int("same_digest", solo[k].digest == conc[k].digest);
                         tr_int("errfield_bad_solo", solo[k].errfield_bad);
                         tr_int("errfield_bad_conc", conc[k].errfield_bad);
+                        tr_int("init_bad_solo", solo[k].init_bad);
+                        tr_int("init_bad_conc", conc[k].init_bad);
                         tr_end();
                         total += solo[k].njobs;
                 }
